@@ -38,7 +38,13 @@ fn write_archive(dir: &Path, bands: &Value) {
                 } else {
                     "f".repeat(128)
                 };
-                j["addrs"] = json!([{"hash": h, "start": a["start"].as_u64().unwrap_or(0), "len": a["len"].as_u64().unwrap_or(0)}]);
+                let mut list = vec![json!({"hash": h, "start": a["start"].as_u64().unwrap_or(0), "len": a["len"].as_u64().unwrap_or(0)})];
+                if a["second"].is_object() {
+                    let data = bytes_for(a["class"].as_u64().unwrap_or(5), a["block_len"].as_u64().unwrap_or(10) as usize);
+                    let h2 = hex::encode(blake2_rfc::blake2b::blake2b(64, &[], &data).as_bytes());
+                    list.push(json!({"hash": h2, "start": a["second"]["start"].as_u64().unwrap_or(0), "len": a["second"]["len"].as_u64().unwrap_or(0)}));
+                }
+                j["addrs"] = json!(list);
             } else if kind == "File" && e["blocks"].is_array() {
                 // a file stored in several blocks: content = bytes_for(class, sum), cut at the given lengths
                 let lens: Vec<usize> = e["blocks"].as_array().unwrap().iter().map(|l| l.as_u64().unwrap() as usize).collect();
